@@ -773,10 +773,19 @@ class Gen:
         if self.c.effects and self.tracers_ready and k < 0.5:
             self.counter += 1
             return ("call", "ti", [("int", self.counter), ("int", r.randrange(0, 3))], ["int"])
-        if k < 0.6:
+        if k < 0.5:
             return ("int", r.randrange(0, 4))
-        if k < 0.7:
+        if k < 0.58:
             return ("int", r.randrange(0, 12))
+        if k < 0.72:
+            # bounds written as small operations, in particular with the operand 1 (round 8: C03-B, a peephole on `x + 1` as an end bound)
+            a = ("int", r.randrange(0, 5))
+            ivs = self.vars_of(scope, "int")
+            if ivs and r.random() < 0.3:
+                a = ("bin", "%", ("var", r.choice(ivs), "int"), ("int", r.choice([2, 3, 4])), "int")
+            op = r.choice(["+", "-", "-", "*", "/", "%"])
+            c = ("int", 1) if r.random() < 0.7 else ("int", r.randrange(1, 4))
+            return ("bin", op, a, c, "int")
         e = self.expr("int", scope, max(0, depth))
         if r.random() < 0.7:
             return ("bin", "%", ("group", e) if e[0] == "bin" else e, ("int", r.choice([2, 3, 4])), "int")
@@ -1463,9 +1472,22 @@ POOL = ["a", "b", "c", "d", "n", "x", "y", "i", "j", "s", "t", "k", "m", "p", "q
         "yy", "ii", "jj", "nn", "ss", "tt"]
 
 
+# the same pool with an upper-case first letter ("public" names: a local is a local whatever its first letter is; round 8: C02-A) and
+# in snake / camel case
+POOL_UPPER = [p.capitalize() for p in POOL]
+POOL_MIXED = ["Total", "count", "max_n", "IsOk", "a_b", "b_c", "N1", "x_", "aB", "Sum", "idx", "Val", "res", "Tmp", "lo", "Hi", "Left", "right", "Acc", "cur",
+              "Next_", "prev", "Out", "in_", "Key", "elem", "Pos", "len_", "Cap", "word"]
+
+
 def reuse_names(rng, prog):
     """Consistent renaming that makes parameters/locals of different functions coincide and lets
     globals defined after a function reuse that function's local names (both are legal)."""
+    k = rng.random()
+    pool = POOL if k < 0.5 else (POOL_UPPER if k < 0.75 else POOL_MIXED)
+    return _reuse_names(rng, prog, pool)
+
+
+def _reuse_names(rng, prog, POOL):
     out = []
     globals_so_far = set()
     used_by_funcs = []
